@@ -666,3 +666,20 @@ Proof.
   split; [eapply ex_sound_conack; exact P |].
   split; [eapply ex_sound_dup; exact P | eapply ex_sound_non; exact P].
 Qed.
+
+Lemma ex_system_token : forall cf cmid0 smid0 acts,
+  ex_P_token (ex_sys_trace cf (ex_sys_init cmid0 smid0) acts).
+Proof. intros. apply (ex_system_local cf cmid0 smid0 acts). Qed.
+
+Lemma ex_system_stops : forall cf cmid0 smid0 acts,
+  ex_P_stops (ex_sys_trace cf (ex_sys_init cmid0 smid0) acts).
+Proof. intros. apply (ex_system_local cf cmid0 smid0 acts). Qed.
+
+Lemma ex_system_conack : forall cf cmid0 smid0 acts,
+  ex_P_conack (ex_sys_trace cf (ex_sys_init cmid0 smid0) acts) /\
+  ex_P_dup (ex_sys_trace cf (ex_sys_init cmid0 smid0) acts).
+Proof. intros. split; apply (ex_system_local cf cmid0 smid0 acts). Qed.
+
+Lemma ex_system_non : forall cf cmid0 smid0 acts,
+  ex_P_non (ex_sys_trace cf (ex_sys_init cmid0 smid0) acts).
+Proof. intros. apply (ex_system_local cf cmid0 smid0 acts). Qed.
